@@ -16,6 +16,34 @@ def _s(*items):
     return CommentedSeq(list(items))
 
 
+def _anc(value, name="t"):
+    """A ruamel scalar carrying an anchor (what the round-trip loader yields for `&t value`); using the same object at
+    several places is what the loader yields for its aliases `*t`."""
+    from ruamel.yaml.scalarstring import PlainScalarString
+    return PlainScalarString(value, anchor=name)
+
+
+def _ancmap(name, *pairs):
+    m = CommentedMap(list(pairs))
+    m.yaml_set_anchor(name, always_dump=True)
+    return m
+
+
+def _lanc(a, b):
+    t = _anc("one")
+    return _m(("l", _s(t, a, t, b, t)))
+
+
+def _manc(a):
+    t = _anc("alpha")
+    return _m(("h", _m(("first", t), ("second", a), ("third", t))))
+
+
+def _aanc(a, b):
+    h = _ancmap("t", ("n", b))
+    return _m(("w", _s(h, _m(("n", a)), h)))
+
+
 def _set(*items):
     s = CommentedSet()
     for i in items:
@@ -60,6 +88,11 @@ SHAPES = {
     "HOH": (lambda a, b, c: _m(("t", _m(("x", _m(("p", a))), ("y", _m(("p", b))), ("z", _m(("q", c)))))), "t",
             "{t: {x: {p: a}, y: {p: b}, z: {q: c}}}"),
     "LHASH": (lambda a, b, c: _m(("l", _s(a, _m(("p", 1)), b))), "l", "{l: [a, {p: 1}, b]} (list holding a hash)"),
+    # anchored nodes and their aliases inside one collection
+    "LANC": (lambda a, b, c: _lanc(a, b), "l", "{l: [&t one, a, *t, b, *t]} (anchored scalar and two aliases in one list)"),
+    "LANC1": (lambda a, b, c: _m(("l", _s(a, _anc("uno"), b))), "l", "{l: [a, &t uno, b]} (one anchored element)"),
+    "MANC": (lambda a, b, c: _manc(a), "h", "{h: {first: &t alpha, second: a, third: *t}}"),
+    "AANC": (lambda a, b, c: _aanc(a, b), "w", "{w: [&t {n: b}, {n: a}, *t]} (anchored hash and its alias in one list)"),
     # sets and scalars
     "SET": (lambda a, b, c: _m(("s", _set("a", "b", "cc"))), "s", "{s: !!set {a, b, cc}}"),
     "SETI": (lambda a, b, c: _m(("s", _set(1, 2, 3))), "s", "{s: !!set {1, 2, 3}}"),
